@@ -3,15 +3,17 @@ import os, subprocess, glob, time, re
 import buildlib as BL
 V = BL.V
 
-def run(bdir, tier, known_ids, deadline):
+def run(bdir, tier, known_ids, deadline, variant='tsan'):
     t0 = time.time(); R = BL.repo()
-    objs = BL.build_objects(bdir, 'tsan')
-    exe = os.path.join(bdir, 'tsanrun')
-    cmd = ['clang', '-O1', '-g', '-fsanitize=thread', '-std=gnu99', '-Wno-unused-function', '-I' + os.path.join(R, 'include'), '-I' + R, '-I' + os.path.join(V, 'sched'), '-DHAVE_LIBIDN2'] + BL.BASE_DEFS + \
-          ['-o', exe, os.path.join(V, 'sched', 'tsanrun.c')] + objs + ['-lidn2', '-lpthread']
+    objs = BL.build_objects(bdir, variant)
+    exe = os.path.join(bdir, 'tsanrun-' + variant)
+    bdefs, _ = BL.backend_flags(BL.VARIANTS[variant][2])
+    extra = [] if variant == 'tsan' else [os.path.join(V, 'sched', 'idnstub_mt.c')]      # the other back ends run on thread-safe stand-ins for their IDN library
+    cmd = ['clang', '-O1', '-g', '-fsanitize=thread', '-std=gnu99', '-Wno-unused-function', '-I' + os.path.join(R, 'include'), '-I' + R, '-I' + os.path.join(V, 'sched')] + bdefs + BL.BASE_DEFS + \
+          ['-o', exe, os.path.join(V, 'sched', 'tsanrun.c')] + extra + objs + ['-lidn2', '-lpthread']
     rc, out = BL.sh(cmd)
     if rc: raise RuntimeError('tsanrun build failed: ' + out)
-    logp = os.path.join(bdir, 'tsanlog')
+    logp = os.path.join(bdir, 'tsanlog-' + variant)
     env = dict(os.environ); env['TSAN_OPTIONS'] = 'log_path=%s exitcode=0 halt_on_error=0 report_signal_unsafe=0 history_size=4' % logp
     p = subprocess.run([exe, tier], env=env, stdout=subprocess.PIPE, stderr=subprocess.STDOUT, text=True, errors='replace', timeout=max(60, deadline))
     res = {'counters': {}, 'phases': [], 'violations': [], 'classes': [], 'samples': [], 'extra': {}}
@@ -41,5 +43,9 @@ def run(bdir, tier, known_ids, deadline):
                 viol('tsan:' + (head[0].strip()[:60] if head else 'report') + ':' + (where[0][0] if where else '?'), ' '.join(rep.split())[:190], ' '.join('%s %s' % w for w in where))
     res['counters'] = {'evaluations': evals, 'distinct_nontrivial': 0, 'tsan_free_running_validations': evals, 'tsan_reports': races}
     res['samples'].append({'sub': 'tsan', 'cfg': '', 'text': 'TSAN_OPTIONS=... tsanrun ' + tier, 'msg': (m.group(0) if m else 'no summary')})
-    res['phases'].append({'name': 'ThreadSanitizer free-running pass: harness bodies + 2/3/4/8/16-thread validation loops', 'shards': 1, 'done': 1, 'complete': bool(m), 'evaluations': evals, 'wall_s': round(time.time() - t0, 2)})
+    res['phases'].append({'name': 'ThreadSanitizer free-running pass (%s build): harness bodies + 2/3/4/8/16-thread validation loops' % BL.VARIANTS[variant][2], 'shards': 1, 'done': 1, 'complete': bool(m), 'evaluations': evals, 'wall_s': round(time.time() - t0, 2)})
     return res
+
+
+def run_idn(bdir, tier, known_ids, deadline): return run(bdir, tier, known_ids, deadline, variant='tsan-idn')
+def run_idnkit(bdir, tier, known_ids, deadline): return run(bdir, tier, known_ids, deadline, variant='tsan-idnkit')
